@@ -7,7 +7,7 @@
 PATCH="$(readlink -f "$1")"; BUDGET="$2"; shift 2
 export GOFLAGS=-mod=mod GOPROXY=off GOSUMDB=off GOTOOLCHAIN=local
 S=$(mktemp -d /var/tmp/verif-seedtest.XXXXXX)
-cleanup() { git -C /repo worktree remove --force "$S/repo" 2>/dev/null; rm -rf "$S"; git -C /repo worktree prune; }
+cleanup() { if [ -n "${KEEP_REPLAYS:-}" ] && [ -d "$S/verif/replays" ]; then mkdir -p "$KEEP_REPLAYS"; cp "$S"/verif/replays/* "$KEEP_REPLAYS"/ 2>/dev/null; fi; git -C /repo worktree remove --force "$S/repo" 2>/dev/null; rm -rf "$S"; git -C /repo worktree prune; }
 trap cleanup EXIT
 git -C /repo worktree add -q --detach "$S/repo" HEAD || exit 2
 ( cd "$S/repo" && git apply "$PATCH" ) || { echo "patch does not apply"; exit 2; }
